@@ -29,6 +29,7 @@ import (
 	"github.com/ipld/go-car/v2/index"
 	"github.com/ipld/go-car/v2/storage"
 	"github.com/ipld/go-car/v2/verifexport"
+	"github.com/multiformats/go-multihash"
 )
 
 type epFunc func(file []byte, dir string, opts []carv2.Option) error
@@ -110,7 +111,20 @@ var entryPoints = []struct {
 		_, err := carv2.ReadOrGenerateIndex(bytes.NewReader(f), o...)
 		return err
 	}},
-	{"index.ReadFrom", false, false, func(f []byte, _ string, o []carv2.Option) error { _, err := index.ReadFrom(bytes.NewReader(f)); return err }},
+	{"index.ReadFrom+queries", false, false, func(f []byte, _ string, o []carv2.Option) error {
+		idx, err := index.ReadFrom(bytes.NewReader(f))
+		if err != nil {
+			return err
+		}
+		return exerciseIndex(idx)
+	}},
+	{"ReadOrGenerateIndex+queries", false, false, func(f []byte, _ string, o []carv2.Option) error {
+		idx, err := carv2.ReadOrGenerateIndex(bytes.NewReader(f), o...)
+		if err != nil {
+			return err
+		}
+		return exerciseIndex(idx)
+	}},
 	{"blockstore.NewReadOnly+queries", true, true, func(f []byte, _ string, o []carv2.Option) error {
 		bs, err := blockstore.NewReadOnly(bytes.NewReader(f), nil, o...)
 		if err != nil {
@@ -189,6 +203,57 @@ var entryPoints = []struct {
 		}
 		return nil
 	}},
+}
+
+// exerciseIndex runs every read-side operation of a loaded index: a corrupt index that was
+// accepted must still answer (or refuse) without panicking or over-allocating.
+func exerciseIndex(idx index.Index) error {
+	for _, b := range alphabet {
+		index.GetFirst(idx, b.Cid)
+		idx.GetAll(b.Cid, func(uint64) bool { return true })
+	}
+	if it, ok := idx.(index.IterableIndex); ok {
+		n := 0
+		it.ForEach(func(multihash.Multihash, uint64) error {
+			if n++; n > 1<<22 {
+				return errors.New("harness: more than 2^22 records")
+			}
+			return nil
+		})
+	}
+	var sink bytes.Buffer
+	_, err := index.WriteTo(idx, &sink)
+	return err
+}
+
+// cidLenOffsets finds, in a valid base file, the offset of the digest-length byte of every
+// occurrence of an alphabet CID (all alphabet digest lengths are single-byte varints except b19's).
+func cidLenOffsets(base []byte) []int {
+	var out []int
+	seen := map[int]bool{}
+	for _, b := range alphabet {
+		cb := b.Cid.Bytes()
+		pre := 1 // CIDv0: 0x12 <len>
+		if b.Cid.Version() == 1 {
+			pre = 0
+			for k := 0; k < 3; k++ { // version, codec, hash code
+				_, n := binary.Uvarint(cb[pre:])
+				pre += n
+			}
+		}
+		for from := 0; ; {
+			i := bytes.Index(base[from:], cb)
+			if i < 0 {
+				break
+			}
+			if p := from + i + pre; !seen[p] {
+				seen[p] = true
+				out = append(out, p)
+			}
+			from += i + 1
+		}
+	}
+	return out
 }
 
 // ---- exact-limit matrix --------------------------------------------------------------------
@@ -328,7 +393,35 @@ func mutate(rng interface {
 		in = []byte{0}
 	}
 	for e := 1 + rng.Intn(3); e > 0; e-- {
-		switch rng.Intn(7) {
+		switch rng.Intn(9) {
+		case 7: // a CID announcing a huge digest: the length byte of a real CID becomes a big varint
+			if offs := cidLenOffsets(in); len(offs) > 0 {
+				p := offs[rng.Intn(len(offs))]
+				v := putUvarint([]uint64{1 << 28, 1<<29 - 1, 1 << 24, 200}[rng.Intn(4)])
+				in = append(in[:p], append(v, in[p+1:]...)...)
+			}
+		case 8: // a little-endian length field grows by r and r bytes are inserted after what it covered
+			if len(in) >= 16 {
+				var cands []int // positions that read as a length covering bytes that are there
+				for p := 0; p+8 <= len(in); p++ {
+					if v := binary.LittleEndian.Uint64(in[p:]); v > 0 && v <= uint64(len(in)-p-8) {
+						cands = append(cands, p)
+					}
+				}
+				p := rng.Intn(len(in) - 7)
+				if len(cands) > 0 && rng.Intn(4) != 0 {
+					p = cands[rng.Intn(len(cands))]
+				}
+				v := binary.LittleEndian.Uint64(in[p:])
+				if v < uint64(len(in)) {
+					r := 1 + rng.Intn(15)
+					binary.LittleEndian.PutUint64(in[p:], v+uint64(r))
+					q := min(len(in), p+8+int(v))
+					extra := make([]byte, r)
+					rng.Read(extra)
+					in = append(in[:q], append(extra, in[q:]...)...)
+				}
+			}
 		case 0: // overwrite 8 bytes with an interesting little-endian value (v2 header fields, index lengths, offsets)
 			if len(in) >= 8 {
 				p := rng.Intn(len(in) - 7)
